@@ -4,7 +4,8 @@
 // hang (e.g. a parent-pointer cycle) into `HANG <id>` + exit code 3.
 // stdin:  UF <id> <n> <threads> <rounds> <m> a0 b0 a1 b1 ...   (pair i goes to thread i % threads, every round on a fresh structure)
 //         HT <id> <log2size> <threads> <m> k0 k1 ...            (key i inserted by thread i % threads, value = 3*key+1)
-// stdout: U <id> ok=<0|1> LABELS l0..ln-1 [ORD=<0|1>]      H <id> ok=<0|1> full=<0|1> entries=<e> distinct=<d>
+// stdout: U <id> ok=<0|1> ORD=<0|1> LABELS l0..ln-1 ; A <id> rank0 parent0 rank1 parent1 ..   (words after the unions)
+//         HH <id> size h(k0) h(k1) .. ; HA <id> key-or--1 per slot ; H <id> ok=<0|1> full=<0|1> entries=<e> distinct=<d>
 #include <unistd.h>
 
 #include <atomic>
@@ -53,6 +54,7 @@ int main() {
       alarm(90);   // generous: only a genuine non-termination (parent cycle) should trip it
       bool ok = true, ord = true;
       std::vector<int> labels(n, 0);
+      std::vector<uint32_t> words;
       SeqUF ref(n);
       for (auto& pr : pairs) ref.unite(pr.first, pr.second);
       // persistent worker threads; every round works on a fresh structure
@@ -82,6 +84,8 @@ int main() {
         roundNo.fetch_add(1, std::memory_order_acq_rel);
         while (doneCnt.load(std::memory_order_acquire) < threads) std::this_thread::yield();
         DisjointSets& uf = *cur;
+        words.clear();
+        for (int i = 0; i < n; ++i) { words.push_back(uf.rank(i)); words.push_back(uf.parent(i)); }
         // (rank, id) order along parent pointers: parent has larger rank, or equal rank and smaller id
         for (int i = 0; i < n; ++i) {
           uint32_t p = uf.parent(i);
@@ -113,6 +117,10 @@ int main() {
       std::string out = "U " + id + " ok=" + (ok && ord ? "1" : "0") + " ORD=" + (ord ? "1" : "0") + " LABELS";
       for (int v : labels) out += " " + std::to_string(v);
       puts(out.c_str());
+      // the words mData[i] = (rank, parent) after the unions (before any find of the label pass)
+      std::string arr = "A " + id;
+      for (uint32_t w : words) arr += " " + std::to_string(w);
+      puts(arr.c_str());
     } else if (tag == "HT") {
       int lg, threads, m;
       is >> lg >> threads >> m;
@@ -154,6 +162,18 @@ int main() {
       if (!full) {
         for (uint64_t k : distinct)
           if (stored.count(k) != 1 || d[k] != 3 * k + 1) ok = false;
+      }
+      {
+        // hash of every input key (masked) and the final key array (-1 = open), for the model
+        std::string hh = "HH " + id + " " + std::to_string(d.Size());
+        for (uint64_t k : keys) hh += " " + std::to_string(manifold::hash64bit(k) & (uint64_t)(d.Size() - 1));
+        puts(hh.c_str());
+        std::string ha = "HA " + id;
+        for (int i = 0; i < d.Size(); ++i) {
+          uint64_t k = d.KeyAt(i);
+          ha += k == manifold::HashTable<uint64_t>::Open() ? std::string(" -1") : " " + std::to_string(k);
+        }
+        puts(ha.c_str());
       }
       printf("H %s ok=%d full=%d entries=%d distinct=%zu\n", id.c_str(), ok ? 1 : 0, full ? 1 : 0, table.Entries(),
              distinct.size());
